@@ -553,6 +553,75 @@ func init() {
 			return ex.B.False
 		}
 	}
+	// sync/atomic.Value and the typed atomics (ghost cell per address; the baton makes every step atomic)
+	m["(*sync/atomic.Value).Load"] = func(ex *Exec, fr *frame, a []Value) Value {
+		ex.yieldPoint("lock")
+		if v, ok := ex.ghost["atomicval:"+ptrKey(a[0].(*Ptr))]; ok {
+			return v.(Value)
+		}
+		return &Iface{}
+	}
+	m["(*sync/atomic.Value).Store"] = func(ex *Exec, fr *frame, a []Value) Value {
+		ex.yieldPoint("lock")
+		ex.ghost["atomicval:"+ptrKey(a[0].(*Ptr))] = a[1]
+		return nil
+	}
+	m["(*sync/atomic.Value).Swap"] = func(ex *Exec, fr *frame, a []Value) Value {
+		ex.yieldPoint("lock")
+		k := "atomicval:" + ptrKey(a[0].(*Ptr))
+		var old Value = &Iface{}
+		if v, ok := ex.ghost[k]; ok {
+			old = v.(Value)
+		}
+		ex.ghost[k] = a[1]
+		return old
+	}
+	for _, ty := range []struct {
+		name string
+		w    uint8
+	}{{"Int32", 32}, {"Int64", 64}, {"Uint32", 32}, {"Uint64", 64}, {"Bool", 1}} {
+		ty := ty
+		cell := func(ex *Exec, p *Ptr) *Term {
+			if v, ok := ex.ghost["atomicnum:"+ptrKey(p)]; ok {
+				return v.(*Term)
+			}
+			if ty.w == 1 {
+				return ex.B.False
+			}
+			return ex.B.Const(ty.w, 0)
+		}
+		m["(*sync/atomic."+ty.name+").Load"] = func(ex *Exec, fr *frame, a []Value) Value {
+			ex.yieldPoint("lock")
+			return cell(ex, a[0].(*Ptr))
+		}
+		m["(*sync/atomic."+ty.name+").Store"] = func(ex *Exec, fr *frame, a []Value) Value {
+			ex.yieldPoint("lock")
+			ex.ghost["atomicnum:"+ptrKey(a[0].(*Ptr))] = a[1].(*Term)
+			return nil
+		}
+		m["(*sync/atomic."+ty.name+").Swap"] = func(ex *Exec, fr *frame, a []Value) Value {
+			ex.yieldPoint("lock")
+			old := cell(ex, a[0].(*Ptr))
+			ex.ghost["atomicnum:"+ptrKey(a[0].(*Ptr))] = a[1].(*Term)
+			return old
+		}
+		m["(*sync/atomic."+ty.name+").CompareAndSwap"] = func(ex *Exec, fr *frame, a []Value) Value {
+			ex.yieldPoint("lock")
+			if ex.X.Branch(ex.B.Eq(cell(ex, a[0].(*Ptr)), a[1].(*Term))) {
+				ex.ghost["atomicnum:"+ptrKey(a[0].(*Ptr))] = a[2].(*Term)
+				return ex.B.True
+			}
+			return ex.B.False
+		}
+		if ty.w > 1 {
+			m["(*sync/atomic."+ty.name+").Add"] = func(ex *Exec, fr *frame, a []Value) Value {
+				ex.yieldPoint("lock")
+				nv := ex.B.Bin(OAdd, cell(ex, a[0].(*Ptr)), a[1].(*Term))
+				ex.ghost["atomicnum:"+ptrKey(a[0].(*Ptr))] = nv
+				return nv
+			}
+		}
+	}
 	// strings.Builder
 	m["(*strings.Builder).WriteString"] = func(ex *Exec, fr *frame, a []Value) Value {
 		g := ex.builder(a[0].(*Ptr))
